@@ -342,7 +342,11 @@ func checkC06(c *Ctx) {
 				fld := an.FieldAddrName(fa)
 				held := c.lockHeldAcrossHandler(st, fld)
 				nJoin++
-				R.Check(held == "", "C06-nojoin", fname(f)+": lock "+st.Obj().Name()+"."+fld, c.pos(ci), "this mutex is never held while a handler runs", "the read loop acquires "+st.Obj().Name()+"."+fld+", which is held across a handler call at "+held)
+				owner := "(unnamed struct " + an.Path(fa.X) + ")"
+				if st != nil {
+					owner = st.Obj().Name()
+				}
+				R.Check(held == "", "C06-nojoin", fname(f)+": lock "+owner+"."+fld, c.pos(ci), "this mutex is never held while a handler runs", "the read loop acquires "+owner+"."+fld+", which is held across a handler call at "+held)
 			}
 		}
 	}
@@ -457,7 +461,11 @@ func (c *Ctx) lockHeldAcrossHandler(st *types.Named, field string) string {
 			}
 			for k := range sets[ci] {
 				// key form "<path>.<field>" possibly with "(r)"; the mutex must belong to the same struct type
-				if hasSuffixField(k, field) && lockOwnerType(f, k) == st.Obj().Name() {
+				want := ""
+				if st != nil {
+					want = st.Obj().Name()
+				}
+				if hasSuffixField(k, field) && lockOwnerType(f, k) == want {
 					return c.pos(ci)
 				}
 			}
@@ -708,18 +716,79 @@ func checkC13(c *Ctx) {
 		R.Check(base != nil && isThisRequest(an.StripX(base), m), "C13-inline", "(*conn).serveRequests: StartTLS test on the request just read", c.pos(g.If), "r is this iteration's request", "StartTLS test looks at another request")
 	}
 	// ---- C13-rawhandshake
+	// (tls.Server may be called in StartTLS itself or in a helper StartTLS calls: `tlsConn, err := r.conn.newTLSServerConn(cfg)`)
 	var tlsServer *ssa.Call
 	for _, ci := range callTo(startTLS, "crypto/tls", "Server") {
 		tlsServer, _ = ci.(*ssa.Call)
 	}
-	if tlsServer == nil {
+	var tlsHelper *ssa.Function // the helper that builds the TLS connection, if any
+	var tlsHelperCall *ssa.Call // its call in StartTLS
+	var tlsSeen ssa.Value       // the new TLS connection as StartTLS sees it
+	if tlsServer != nil {
+		tlsSeen = tlsServer
+	} else {
+		for _, ci := range an.Calls(startTLS) {
+			call, isCall := ci.(*ssa.Call)
+			h := an.StaticCallee(ci.Common())
+			if !isCall || h == nil || !an.InModule(h) || len(h.Blocks) == 0 {
+				continue
+			}
+			for _, hc := range callTo(h, "crypto/tls", "Server") {
+				ts, _ := hc.(*ssa.Call)
+				if ts == nil {
+					continue
+				}
+				// which result of the helper is that connection (on every return that yields one)
+				ridx := -1
+				okRet := true
+				for _, ret := range an.Returns(h) {
+					res := an.ReturnResults(ret)
+					for i, rv := range res {
+						if an.Strip(rv) == ssa.Value(ts) {
+							if ridx >= 0 && ridx != i {
+								okRet = false
+							}
+							ridx = i
+						} else if i == ridx && !an.IsNilConst(an.Strip(rv)) {
+							okRet = false
+						}
+					}
+				}
+				if ridx < 0 || !okRet {
+					continue
+				}
+				tlsServer, tlsHelper, tlsHelperCall = ts, h, call
+				if h.Signature.Results().Len() == 1 {
+					tlsSeen = call
+				} else if call.Referrers() != nil {
+					for _, rr := range *call.Referrers() {
+						if ex, isEx := rr.(*ssa.Extract); isEx && ex.Index == ridx {
+							tlsSeen = ex
+						}
+					}
+				}
+			}
+		}
+	}
+	if tlsServer == nil || tlsSeen == nil {
 		R.Fail("C13-rawhandshake", "(*Request).StartTLS: tls.Server(conn.netConn)", c.P.Pos(startTLS.Pos()), "no tls.Server call")
 	} else {
 		a0 := tlsServer.Common().Args[0]
 		base, ok := fieldLoad(a0, G, "conn", "netConn")
 		if ok {
-			rb, ok2 := fieldLoad(base, G, "Request", "conn")
-			ok = ok2 && an.Strip(rb) == ssa.Value(startTLS.Params[0])
+			if tlsHelper == nil {
+				rb, ok2 := fieldLoad(base, G, "Request", "conn")
+				ok = ok2 && an.Strip(rb) == ssa.Value(startTLS.Params[0])
+			} else {
+				// in the helper: its own receiver, which StartTLS binds to r.conn
+				ok = false
+				for i, hp := range tlsHelper.Params {
+					if an.Strip(base) == ssa.Value(hp) && i < len(tlsHelperCall.Common().Args) {
+						rb, ok2 := fieldLoad(tlsHelperCall.Common().Args[i], G, "Request", "conn")
+						ok = ok2 && an.Strip(rb) == ssa.Value(startTLS.Params[0])
+					}
+				}
+			}
 		}
 		R.Check(ok, "C13-rawhandshake", "(*Request).StartTLS: tls.Server(conn.netConn)", c.pos(tlsServer), "TLS is layered on the raw socket r.conn.netConn (not on the buffered reader)", "tls.Server is applied to "+an.Path(a0)+" instead of r.conn.netConn")
 		// Handshake on it, initConn only on success with it
@@ -727,13 +796,21 @@ func checkC13(c *Ctx) {
 		for _, ci := range an.Calls(startTLS) {
 			if call, ok := ci.(*ssa.Call); ok {
 				if f := call.Common().StaticCallee(); f != nil && an.FuncPkgPath(f) == "crypto/tls" && (f.Name() == "Handshake" || f.Name() == "HandshakeContext") &&
-					an.Strip(call.Common().Args[0]) == ssa.Value(tlsServer) {
+					an.Strip(call.Common().Args[0]) == an.Strip(tlsSeen) {
 					hs = call
 				}
 			}
 		}
 		inits := callTo(startTLS, G, "(*conn).initConn")
+		var earlyInit ssa.CallInstruction
+		if tlsHelper != nil {
+			for _, ic := range callTo(tlsHelper, G, "(*conn).initConn") {
+				earlyInit = ic
+			}
+		}
 		switch {
+		case earlyInit != nil:
+			R.Fail("C13-rawhandshake", "(*Request).StartTLS: handshake before swap", c.pos(earlyInit), "the helper that creates the TLS connection ("+fname(tlsHelper)+") also swaps the connection's reader/writer to it, i.e. before StartTLS has performed the handshake: a failed handshake leaves the connection half upgraded (neither cleartext nor TLS works on it any more)")
 		case hs == nil:
 			R.Fail("C13-rawhandshake", "(*Request).StartTLS: handshake before swap", c.pos(tlsServer), "Handshake is not called on the new tls.Conn before the swap")
 		case len(inits) != 1:
@@ -747,7 +824,7 @@ func checkC13(c *Ctx) {
 				x, trueMeansNil, ok := an.NilCheck(v)
 				return ok && trueMeansNil && an.Strip(x) == ssa.Value(hs)
 			})
-			okArg := an.Strip(ic.Common().Args[1]) == ssa.Value(tlsServer)
+			okArg := an.Strip(ic.Common().Args[1]) == an.Strip(tlsSeen)
 			recvBase, okRecv := fieldLoad(ic.Common().Args[0], G, "Request", "conn")
 			okRecv = okRecv && an.Strip(recvBase) == ssa.Value(startTLS.Params[0])
 			R.Check(okErr && okArg && okRecv && isCall(ic), "C13-rawhandshake", "(*Request).StartTLS: handshake before swap", c.pos(ic),
